@@ -42,7 +42,9 @@ def trace_patterns(rnd, names, focus_name):
 def describe(sp, strat, traces, rec, extra=""):
     tr = [{"args": {k: repr(v) for k, v in t.arg_types.items()}, "return": repr(t.return_type),
            "yield": repr(t.yield_type)} for t in traces]
-    return (f"{sp.fkind} function `{sp.source().strip().splitlines()[-2].strip()}` strategy={strat} "
+    head = " ".join(l.strip() for l in sp.source().strip().splitlines()
+                    if l.strip() and not l.strip().startswith(("pass", "yield")))
+    return (f"{sp.fkind} function `{head}` strategy={strat} "
             f"traces={tr} -> stub `{rec.get('stub', '').strip()[-300:]}` {extra}")
 
 
@@ -76,17 +78,17 @@ def run(ctx):
                 names = [p[0] for p in sp.params]
                 focus_name = names[sp.focus]
                 pats = trace_patterns(rnd, names, focus_name)
-                if not thorough:
+                is_random_fn = sp.name.startswith("r")
+                if not thorough or is_random_fn:
                     # all + none already put every position in both the traced and the untraced cell under
                     # every strategy; one of the three subset patterns rotates in for cross-position interaction
                     pats = pats[:2] + [pats[2 + fn_index % 3]]
-                if thorough:
-                    pats += [("random", {n for n in names if rnd.random() < 0.5}) for _ in range(3)]
+                nmodes = 2 if (thorough and not is_random_fn) else 1
                 for sname in ("REPLICATE", "IGNORE", "OMIT"):
                     if sname not in members:
                         raise RuntimeError(f"ExistingAnnotationStrategy has no member {sname}")
                     for pi, (pname_, traced) in enumerate(pats):
-                        modes = G.RET_MODES if thorough else [G.RET_MODES[(pi + fn_index) % len(G.RET_MODES)]]
+                        modes = [G.RET_MODES[(pi + fn_index + 3 * j) % len(G.RET_MODES)] for j in range(nmodes)]
                         for mode in modes:
                             traces = G.make_traces(rnd, func, names, traced, mode, pool)
                             rec = G.run_api(func, traces, members[sname], 0, ns, ct)
@@ -116,6 +118,29 @@ def run(ctx):
                             if "Optional[" in rec.get("stub", ""):
                                 dist["rendered_optional_wrapped"] += 1
                 fn_index += 1
+
+        # ---------------- hand-written edge functions (PEP 604, async, unevaluable strings, odd receivers) ----
+        with open(os.path.join(work, "c13edge.py"), "w") as f:
+            f.write(G.EDGE_MODULE)
+        emod = G.import_module(work, "c13edge")
+        ens, epool = G.namespace(emod), G.type_pool(emod)
+        for ename, ekind in G.EDGE_FUNCS:
+            esp = G.FnSpec(ename, ekind, [], None, 0)
+            func = G.live_function(emod, esp)
+            names = list(inspect.signature(func).parameters)
+            for sname in ("REPLICATE", "IGNORE", "OMIT"):
+                for pname_, traced in (("all", set(names)), ("none", set()), ("random", {n for n in names if rnd.random() < 0.5})):
+                    for mode in G.RET_MODES:
+                        traces = G.make_traces(rnd, func, names, traced, mode, epool)
+                        rec = G.run_api(func, traces, members[sname], 0, ens, ct)
+                        tt = G.coq_list(G.reify_trace(t, ct) for t in traces)
+                        terms.append(G.case_term(sname, members[sname].value, None, rec["kind"] or ekind, rec["sig"], 0, tt,
+                                                 rec["shrunk"], rec["out"], rec["rendered"], rec["env"],
+                                                 rec["raised"] is not None, False))
+                        esp.src_text = inspect.getsource(func)
+                        cases.append({"sp": esp, "strategy": sname, "traces": traces, "rec": rec, "mode": mode,
+                                      "pattern": "edge", "module": "c13edge", "cli": None})
+                        dist["edge_cases"] = dist.get("edge_cases", 0) + 1
 
         # ---------------- the real command line, for a sample ----------------
         cli_specs = [sp for sp in specs if sp.fkind != "DJANGO_CACHED_PROPERTY"]
@@ -190,7 +215,7 @@ def run(ctx):
         stubs.cached_property = saved_cp
         if work in sys.path:
             sys.path.remove(work)
-        for m in [m for m in sys.modules if m.startswith("c13fx_") or m.startswith("c13cli_")]:
+        for m in [m for m in sys.modules if m.startswith("c13fx_") or m.startswith("c13cli_") or m == "c13edge"]:
             sys.modules.pop(m, None)
 
     # ---------------- exhaustiveness of the enumerated matrix ----------------
